@@ -135,5 +135,25 @@ def long_cases(draw, tier):
             't1': draw(st.sampled_from([0.0, 0.001, 0.005, 0.01, 0.05])), 't2': draw(st.sampled_from([3, 4, 8]))  + 1}
 
 
-SUBS = [Sub('multi_knee', oracle, strategy=cases, budget={'quick': 6400, 'thorough': 96000}, examples=examples),
+def deep_cases(tier):
+    """Smooth convex knee curves on which curvature / Menger put each tail's knee at its start: the
+    decomposition is a chain ~0.46 n deep.  Enumerated (not Hypothesis-driven) so that the
+    interpreter's default recursion limit applies, as in user code."""
+    for det in ('curvature', 'menger'):
+        for n in ((2400, 3000) if tier == 'quick' else (2400, 3000, 5000)):
+            for kind in ('hyperbola', 'exp'):
+                yield {'family': 'deep:' + kind, 'n': n, 'kindc': kind, 'detector': det, 't1': 0.001, 't2': DETECTORS[det]}
+
+
+def oracle_deep(case, rec):
+    n = case['n']
+    x = np.arange(1, n + 1, dtype=float)
+    y = 1.0 / x if case['kindc'] == 'hyperbola' else np.exp(-x / (n / 8.0))
+    full = dict(case)
+    full['pts'] = np.column_stack((x, y)).tolist()
+    oracle(full, rec)
+
+
+SUBS = [Sub('deep', oracle_deep, enumerate=deep_cases, shards=8),
+        Sub('multi_knee', oracle, strategy=cases, budget={'quick': 6400, 'thorough': 96000}, examples=examples),
         Sub('long', oracle, strategy=long_cases, budget={'quick': 160, 'thorough': 1600})]
